@@ -34,9 +34,19 @@ def excused (s : St) (c : Call) : Bool :=
 def stuckCalls (s : St) : List Nat :=
   (s.calls.filter fun c => callLive c && !excused s c).map (·.cid)
 
+/-- Inbound items nobody will read: the dispatch is alive and healthy, not woken, yet the transport holds
+items for it (a reply that arrived must have woken it). -/
+def unreadInbound (s : St) : Nat :=
+  if s.dDropped || s.done.isSome || s.poisoned || s.termErr.isSome || s.readFused then 0 else s.t.inbound.length
+
 /-- `settle`: returns the settled state and the stuck calls. -/
 def settle (c : Sys) : Sys × List Nat :=
   let c := settleLoop 400 c
   (c, if dispatchRunnable c.s || (firstWokenCall c.s).isSome then [] else stuckCalls c.s)
+
+/-- Unread inbound items left after settling (0 when the fuel ran out with work still pending). -/
+def settleUnread (c : Sys) : Nat :=
+  let c := settleLoop 400 c
+  if dispatchRunnable c.s || (firstWokenCall c.s).isSome then 0 else unreadInbound c.s
 
 end TarpcModel.Client
